@@ -101,7 +101,10 @@ class Prior(Object):
         instance = cls()
         instance.cls = type(model)
         instance._add_children(
-            [(key, getattr(model, key)) for key in model.__database_args__]
+            [
+                (key, model.id if key == "id_" else getattr(model, key))
+                for key in model.__database_args__
+            ]
         )
         return instance
 
